@@ -4,9 +4,11 @@ import (
 	"bytes"
 	"context"
 	"fmt"
+	"go.sia.tech/core/consensus"
 	"net"
 	"sort"
 	"sync"
+	"sync/atomic"
 	"time"
 
 	"go.sia.tech/core/gateway"
@@ -151,13 +153,23 @@ type stallingCM struct {
 	calls int
 	every int
 	stall time.Duration
+	// stateStall, while armed, delays every State lookup (a slow disk under
+	// the node that is validating what a peer has just sent)
+	stateStall atomic.Int64
+}
+
+func (c *stallingCM) State(id types.BlockID) (consensus.State, bool) {
+	if d := c.stateStall.Load(); d > 0 {
+		time.Sleep(time.Duration(d))
+	}
+	return c.ChainManager.State(id)
 }
 
 func (c *stallingCM) Headers(index types.ChainIndex, max uint64) ([]types.BlockHeader, uint64, error) {
 	hs, rem, err := c.ChainManager.Headers(index, max)
 	c.mu.Lock()
 	c.calls++
-	hold := err == nil && len(hs) > 0 && c.calls%c.every == 0
+	hold := err == nil && len(hs) > 0 && c.every > 0 && c.calls%c.every == 0
 	c.mu.Unlock()
 	if hold {
 		time.Sleep(c.stall)
